@@ -311,6 +311,17 @@ fn all_wrappers<L>(sink: &mut dyn Sink, leaf: &str, d: Vec<L>)
 where
     L: Serialize + DeserializeOwned + PartialEq + Debug + Clone,
 {
+    wrappers(sink, leaf, d, true)
+}
+
+/// `buffered_too == false` leaves out the wrappers that serde deserialises through its private `Content`
+/// buffer (internally tagged, untagged, flatten): serde's ContentDeserializer always claims to be
+/// human-readable, so types that branch on is_human_readable() cannot round-trip there with *any*
+/// compact format - a property of serde, not of the bridge.
+fn wrappers<L>(sink: &mut dyn Sink, leaf: &str, d: Vec<L>, buffered_too: bool)
+where
+    L: Serialize + DeserializeOwned + PartialEq + Debug + Clone,
+{
     let first = d[0].clone();
     check_type::<L>(sink, "identity", leaf, d.clone(), Reframe::Widths, false);
     check_type(sink, "newtype-struct", leaf, d.iter().cloned().map(Newtype).collect(), Reframe::Widths, false);
@@ -330,10 +341,12 @@ where
         unt.extend([Unt::Str { a: x.clone(), z: true }, Unt::Tup(x.clone(), false, true)]);
     }
     check_type(sink, "enum-external", leaf, ext, Reframe::Widths, false);
-    check_type(sink, "enum-internal", leaf, int, Reframe::Widths, true);
     check_type(sink, "enum-adjacent", leaf, adj, Reframe::Widths, false);
-    check_type(sink, "enum-untagged", leaf, unt, Reframe::Widths, true);
-    check_type(sink, "flatten", leaf, d.iter().cloned().map(|a| Flat { inner: Named { a }, z: 9 }).collect(), Reframe::Widths, true);
+    if buffered_too {
+        check_type(sink, "enum-internal", leaf, int, Reframe::Widths, true);
+        check_type(sink, "enum-untagged", leaf, unt, Reframe::Widths, true);
+        check_type(sink, "flatten", leaf, d.iter().cloned().map(|a| Flat { inner: Named { a }, z: 9 }).collect(), Reframe::Widths, true);
+    }
     check_type(sink, "default-skip", leaf, d.iter().cloned().map(|a| Dflt { a, d: 5, s: 0 }).collect(), Reframe::TopContainer, false);
 }
 
@@ -367,45 +380,275 @@ pub fn run_c17(sink: &mut dyn Sink) {
     all_wrappers(sink, "MapNone", vec![MapNone(BTreeMap::new()), MapNone([("k".to_string(), 1u8)].into_iter().collect())]);
     all_wrappers(sink, "Ext<u8>", vec![Ext::Unit, Ext::New(1u8), Ext::Tup(2, 3), Ext::Str { a: 4 }]);
     all_wrappers(sink, "Named<String>", vec![Named { a: String::new() }, Named { a: "v".to_string() }]);
-    borrowed_str(sink);
+    // std types whose serde impls branch on is_human_readable(): both directions of the bridge must agree (compact form)
+    wrappers(sink, "Ipv4Addr", vec![std::net::Ipv4Addr::new(0, 0, 0, 0), std::net::Ipv4Addr::new(127, 0, 24, 255)], false);
+    wrappers(sink, "IpAddr", vec![std::net::IpAddr::V4(std::net::Ipv4Addr::new(10, 0, 0, 1)), std::net::IpAddr::V6(std::net::Ipv6Addr::LOCALHOST)], false);
+    wrappers(sink, "SocketAddrV4", vec![std::net::SocketAddrV4::new(std::net::Ipv4Addr::new(1, 2, 3, 4), 65535)], false);
+    wrappers(sink, "HrProbe", vec![HrProbe(0), HrProbe(24)], false);
+    borrowed_family(sink);
 }
 
-/// `&str` fields borrow from the input.
-fn borrowed_str(sink: &mut dyn Sink) {
-    #[derive(Debug, PartialEq, Serialize, Deserialize)]
-    struct B<'a> {
-        #[serde(borrow)]
-        a: &'a str,
-        b: u8,
-    }
-    let sub = "wrapper-x-leaf";
-    let mut evals = 0;
-    let mut ok = 0;
-    for (s, b) in [("", 0u8), ("a", 24), ("\u{e9}x", 255)] {
-        let v = B { a: s, b };
-        evals += 1;
-        let bytes = minicbor_serde::to_vec(&v).unwrap();
-        let want = refser::to_item(&v).unwrap().to_bytes();
-        if bytes != want {
-            sink.fail(sub, None, "struct", "&str", format!("{:?}", v), hex(&bytes), format!("the documented representation is {}", hex(&want)));
-            continue;
+/// A type that serialises differently for human-readable formats, like the std net types do.
+#[derive(Debug, Clone, PartialEq)]
+pub struct HrProbe(pub u8);
+
+impl Serialize for HrProbe {
+    fn serialize<S: serde::Serializer>(&self, s: S) -> Result<S::Ok, S::Error> {
+        if s.is_human_readable() {
+            s.serialize_str(&format!("hr-{}", self.0))
+        } else {
+            s.serialize_u8(self.0)
         }
-        match minicbor_serde::from_slice::<B>(&bytes) {
-            Ok(back) => {
-                let start = bytes.as_ptr() as usize;
-                let inside = |p: usize, l: usize| l == 0 || (p >= start && p + l <= start + bytes.len());
-                if back != v {
-                    sink.fail(sub, None, "struct", "&str", format!("{:?}", v), hex(&bytes), format!("deserialised to {:?}", back));
-                } else if !inside(back.a.as_ptr() as usize, back.a.len()) {
-                    sink.fail(sub, None, "struct", "&str", format!("{:?}", v), hex(&bytes), "borrowed fields do not point into the input".to_string());
-                } else {
-                    ok += 1;
+    }
+}
+impl<'de> Deserialize<'de> for HrProbe {
+    fn deserialize<D: serde::Deserializer<'de>>(d: D) -> Result<Self, D::Error> {
+        if d.is_human_readable() {
+            let s = String::deserialize(d)?;
+            s.strip_prefix("hr-").and_then(|n| n.parse().ok()).map(HrProbe).ok_or_else(|| serde::de::Error::custom("bad hr form"))
+        } else {
+            u8::deserialize(d).map(HrProbe)
+        }
+    }
+}
+
+/// borrowed byte slice that goes through serialize_bytes / deserialize_bytes (visit_borrowed_bytes)
+#[derive(Debug, Clone, Copy, PartialEq)]
+pub struct BBytes<'a>(pub &'a [u8]);
+
+impl Serialize for BBytes<'_> {
+    fn serialize<S: serde::Serializer>(&self, s: S) -> Result<S::Ok, S::Error> {
+        s.serialize_bytes(self.0)
+    }
+}
+impl<'de: 'a, 'a> Deserialize<'de> for BBytes<'a> {
+    fn deserialize<D: serde::Deserializer<'de>>(d: D) -> Result<Self, D::Error> {
+        struct V;
+        impl<'de> serde::de::Visitor<'de> for V {
+            type Value = BBytes<'de>;
+            fn expecting(&self, f: &mut std::fmt::Formatter) -> std::fmt::Result {
+                f.write_str("borrowed bytes")
+            }
+            fn visit_borrowed_bytes<E: serde::de::Error>(self, v: &'de [u8]) -> Result<BBytes<'de>, E> {
+                Ok(BBytes(v))
+            }
+        }
+        d.deserialize_bytes(V).map(|b| BBytes(b.0))
+    }
+}
+
+/// Address ranges of the borrowed parts of a value.
+pub trait Borrows {
+    fn ranges(&self) -> Vec<(usize, usize)>;
+}
+impl Borrows for &str {
+    fn ranges(&self) -> Vec<(usize, usize)> {
+        vec![(self.as_ptr() as usize, self.len())]
+    }
+}
+impl Borrows for BBytes<'_> {
+    fn ranges(&self) -> Vec<(usize, usize)> {
+        vec![(self.0.as_ptr() as usize, self.0.len())]
+    }
+}
+
+impl<T: Borrows> Borrows for Option<T> {
+    fn ranges(&self) -> Vec<(usize, usize)> {
+        self.as_ref().map(|x| x.ranges()).unwrap_or_default()
+    }
+}
+impl<T: Borrows> Borrows for Vec<T> {
+    fn ranges(&self) -> Vec<(usize, usize)> {
+        self.iter().flat_map(|x| x.ranges()).collect()
+    }
+}
+impl<T: Borrows> Borrows for (T, u8) {
+    fn ranges(&self) -> Vec<(usize, usize)> {
+        self.0.ranges()
+    }
+}
+
+/// ties the type of the deserialised value to the type of the original
+pub fn tie<T, E>(_: &T, r: Result<T, E>) -> Result<T, E> {
+    r
+}
+
+/// One borrowed value: documented representation, round trip, exact consumption, and every borrowed part
+/// points into the input buffer.
+macro_rules! one {
+    ($sink:expr, $wrapper:expr, $leaf:expr, $v:expr) => {{
+        let sub = "borrowed-wrapper-x-leaf";
+        let v = $v;
+        let shown: String = format!("{:?}", v).chars().take(120).collect();
+        let res: Result<(), (String, String)> = (|| {
+            let bytes = minicbor_serde::to_vec(&v).map_err(|e| (String::new(), format!("serialisation failed: {}", e)))?;
+            let want = refser::to_item(&v).map(|i| i.to_bytes()).unwrap_or_default();
+            if bytes != want {
+                return Err((hex(&bytes), format!("the documented representation is {}", hex(&want))));
+            }
+            let mut input = bytes.clone();
+            input.push(0x00);
+            let mut de = minicbor_serde::Deserializer::new(&input);
+            let back = tie(&v, serde::Deserialize::deserialize(&mut de)).map_err(|e| (hex(&bytes), format!("deserialising the serialised value failed: {}", e)))?;
+            let pos = de.decoder().position();
+            let start = input.as_ptr() as usize;
+            if v != back {
+                return Err((hex(&bytes), format!("deserialised to {:?}", back)));
+            }
+            if pos != bytes.len() {
+                return Err((hex(&bytes), format!("deserialised the right value but consumed {} of {} bytes", pos, bytes.len())));
+            }
+            if !Borrows::ranges(&back).iter().all(|(p, l)| *l == 0 || (*p >= start && p + l <= start + bytes.len())) {
+                return Err((hex(&bytes), "borrowed parts do not point into the input".to_string()));
+            }
+            Ok(())
+        })();
+        match res {
+            Ok(()) => $sink.count(sub, $wrapper, $leaf, 1, 1),
+            Err((h, e)) => {
+                $sink.fail(sub, None, $wrapper, $leaf, shown, h, e);
+                $sink.count(sub, $wrapper, $leaf, 1, 0);
+            }
+        }
+    }};
+}
+
+macro_rules! borrowed_wrappers {
+    ($modname:ident, $leaf:ty) => {
+        pub mod $modname {
+            use super::*;
+            #[derive(Debug, PartialEq, Serialize, Deserialize)]
+            pub struct NewB<'a>(#[serde(borrow)] pub $leaf);
+            #[derive(Debug, PartialEq, Serialize, Deserialize)]
+            pub struct NamedB<'a> {
+                #[serde(borrow)]
+                pub a: $leaf,
+                pub b: u8,
+            }
+            #[derive(Debug, PartialEq, Serialize, Deserialize)]
+            pub enum ExtB<'a> {
+                Unit,
+                New(#[serde(borrow)] $leaf),
+                Tup(#[serde(borrow)] $leaf, u8),
+                Str {
+                    #[serde(borrow)]
+                    a: $leaf,
+                },
+            }
+            #[derive(Debug, PartialEq, Serialize, Deserialize)]
+            #[serde(tag = "t")]
+            pub enum IntB<'a> {
+                Unit,
+                Str {
+                    #[serde(borrow)]
+                    a: $leaf,
+                },
+                New(#[serde(borrow)] NamedB<'a>),
+            }
+            #[derive(Debug, PartialEq, Serialize, Deserialize)]
+            #[serde(tag = "t", content = "c")]
+            pub enum AdjB<'a> {
+                New(#[serde(borrow)] $leaf),
+                Str {
+                    #[serde(borrow)]
+                    a: $leaf,
+                },
+            }
+            #[derive(Debug, PartialEq, Serialize, Deserialize)]
+            #[serde(untagged)]
+            pub enum UntB<'a> {
+                Str {
+                    #[serde(borrow)]
+                    a: $leaf,
+                    z: bool,
+                },
+                Tup(#[serde(borrow)] $leaf, bool, bool),
+            }
+            #[derive(Debug, PartialEq, Serialize, Deserialize)]
+            pub struct FlatB<'a> {
+                #[serde(flatten, borrow)]
+                pub inner: NamedB<'a>,
+                pub z: u8,
+            }
+            impl Borrows for NewB<'_> {
+                fn ranges(&self) -> Vec<(usize, usize)> {
+                    self.0.ranges()
                 }
             }
-            Err(e) => sink.fail(sub, None, "struct", "&str", format!("{:?}", v), hex(&bytes), format!("deserialisation failed: {}", e)),
+            impl Borrows for NamedB<'_> {
+                fn ranges(&self) -> Vec<(usize, usize)> {
+                    self.a.ranges()
+                }
+            }
+            impl Borrows for ExtB<'_> {
+                fn ranges(&self) -> Vec<(usize, usize)> {
+                    match self {
+                        ExtB::Unit => vec![],
+                        ExtB::New(x) | ExtB::Tup(x, _) | ExtB::Str { a: x } => x.ranges(),
+                    }
+                }
+            }
+            impl Borrows for IntB<'_> {
+                fn ranges(&self) -> Vec<(usize, usize)> {
+                    match self {
+                        IntB::Unit => vec![],
+                        IntB::Str { a } => a.ranges(),
+                        IntB::New(n) => n.ranges(),
+                    }
+                }
+            }
+            impl Borrows for AdjB<'_> {
+                fn ranges(&self) -> Vec<(usize, usize)> {
+                    match self {
+                        AdjB::New(x) | AdjB::Str { a: x } => x.ranges(),
+                    }
+                }
+            }
+            impl Borrows for UntB<'_> {
+                fn ranges(&self) -> Vec<(usize, usize)> {
+                    match self {
+                        UntB::Str { a, .. } => a.ranges(),
+                        UntB::Tup(a, ..) => a.ranges(),
+                    }
+                }
+            }
+            impl Borrows for FlatB<'_> {
+                fn ranges(&self) -> Vec<(usize, usize)> {
+                    self.inner.ranges()
+                }
+            }
+            pub fn run<'a>(sink: &mut dyn Sink, leafname: &str, leaves: &[$leaf]) {
+                for l in leaves {
+                    let l = *l;
+                    one!(sink, "identity", leafname, l);
+                    one!(sink, "newtype-struct", leafname, NewB(l));
+                    one!(sink, "struct", leafname, NamedB { a: l, b: 24 });
+                    one!(sink, "option", leafname, Some(l));
+                    one!(sink, "vec", leafname, vec![l, l]);
+                    one!(sink, "tuple", leafname, (l, 7u8));
+                    one!(sink, "enum-external", leafname, ExtB::New(l));
+                    one!(sink, "enum-external", leafname, ExtB::Tup(l, 1));
+                    one!(sink, "enum-external", leafname, ExtB::Str { a: l });
+                    one!(sink, "enum-internal", leafname, IntB::Str { a: l });
+                    one!(sink, "enum-internal", leafname, IntB::New(NamedB { a: l, b: 0 }));
+                    one!(sink, "enum-adjacent", leafname, AdjB::New(l));
+                    one!(sink, "enum-adjacent", leafname, AdjB::Str { a: l });
+                    one!(sink, "enum-untagged", leafname, UntB::Str { a: l, z: true });
+                    one!(sink, "enum-untagged", leafname, UntB::Tup(l, false, true));
+                    one!(sink, "flatten", leafname, FlatB { inner: NamedB { a: l, b: 3 }, z: 9 });
+                }
+            }
         }
-    }
-    sink.count(sub, "struct", "&str", evals, ok);
+    };
+}
+
+borrowed_wrappers!(bstr, &'a str);
+borrowed_wrappers!(bbytes, BBytes<'a>);
+
+fn borrowed_family(sink: &mut dyn Sink) {
+    bstr::run(sink, "&str", &["", "a", "\u{e9}\u{1f600}", "xxxxxxxxxxxxxxxxxxxxxxxx"]);
+    let b24 = [7u8; 24];
+    bbytes::run(sink, "&[u8] (bytes)", &[BBytes(&[]), BBytes(&[0]), BBytes(&b24)]);
 }
 
 // ---- C18: shared data model -----------------------------------------------------------------
@@ -479,6 +722,72 @@ where
     sink.count(sub, "shared", name, evals, ok);
 }
 
+/// The same comparison for zero-copy types (`&str` and its compositions): the decoded values borrow from the input.
+macro_rules! shared_borrowed {
+    ($sink:expr, $name:expr, $values:expr) => {{
+        let sub = "shared-types";
+        let mut evals = 0u64;
+        let mut ok = 0u64;
+        for v in $values.iter() {
+            let shown: String = format!("{:?}", v).chars().take(120).collect();
+            evals += 1;
+            let native = minicbor::to_vec(v).unwrap_or_default();
+            let bridge = minicbor_serde::to_vec(v).unwrap_or_default();
+            if native != bridge || native.is_empty() {
+                $sink.fail(sub, None, "both", $name, shown, hex(&native), format!("native Encode wrote {}, the serde bridge wrote {}", hex(&native), hex(&bridge)));
+                continue;
+            }
+            let item = match parse(&native) {
+                Ok((i, u)) if u == native.len() => i,
+                _ => {
+                    $sink.fail(sub, None, "native", $name, shown, hex(&native), "not one well-formed item".to_string());
+                    continue;
+                }
+            };
+            let mut all_ok = true;
+            // wider heads must decode on both sides (definite strings stay borrowable); indefinite containers: value or error
+            let widths: Vec<Item> = deviations_up_to_ex(&item, 2, true, false, false);
+            let mut framed: Vec<Item> = deviations_up_to_ex(&item, 2, false, true, false).into_iter().skip(1).collect();
+            framed.push(all_indefinite(&item));
+            for (k, variant) in widths.iter().map(|x| (true, x)).chain(framed.iter().map(|x| (false, x))) {
+                let input = variant.to_bytes();
+                evals += 1;
+                let a = tie(v, minicbor::decode(&input));
+                let b = tie(v, minicbor_serde::from_slice(&input));
+                let mut bad = None;
+                match &a {
+                    Ok(x) if x != v => bad = Some(format!("native decode returned a different value {:?}", x)),
+                    Err(e) if k => bad = Some(format!("native decode rejected a wider-head encoding: {}", e)),
+                    _ => {}
+                }
+                match &b {
+                    Ok(x) if x != v => bad = Some(format!("the bridge returned a different value {:?}", x)),
+                    Err(e) if k => bad = Some(format!("the bridge rejected a wider-head encoding: {}", e)),
+                    _ => {}
+                }
+                if let Some(m) = bad {
+                    $sink.fail(sub, None, "both", $name, shown.clone(), hex(&input), m);
+                    all_ok = false;
+                }
+            }
+            if all_ok {
+                ok += 1;
+            }
+        }
+        $sink.count(sub, "shared", $name, evals, ok);
+    }};
+}
+
+fn shared_borrowed_types(sink: &mut dyn Sink) {
+    shared_borrowed!(sink, "&str", ["", "a", "\u{e9}\u{1f600}", "xxxxxxxxxxxxxxxxxxxxxxxx"]);
+    shared_borrowed!(sink, "Option<&str>", [None, Some(""), Some("a")]);
+    shared_borrowed!(sink, "(&str,u8)", [("", 0u8), ("k", 24)]);
+    shared_borrowed!(sink, "Vec<&str>", [vec![], vec!["a"], vec!["a", "", "bc"]]);
+    shared_borrowed!(sink, "[&str;2]", [["", ""], ["a", "bc"]]);
+    shared_borrowed!(sink, "BTreeMap<&str,u8>", [BTreeMap::new(), [("k", 1u8), ("l", 24)].into_iter().collect::<BTreeMap<&str, u8>>()]);
+    shared_borrowed!(sink, "Vec<(u8,Option<&str>)>", [vec![(1u8, None), (24, Some("z"))]]);
+}
+
 /// Every array and map of the item made indefinite.
 fn all_indefinite(i: &Item) -> Item {
     match i {
@@ -490,6 +799,7 @@ fn all_indefinite(i: &Item) -> Item {
 }
 
 pub fn run_c18(sink: &mut dyn Sink) {
+    shared_borrowed_types(sink);
     shared(sink, "bool", vec![false, true]);
     shared(sink, "u8", vec![0u8, 23, 24, 255]);
     shared(sink, "u16", vec![0u16, 255, 256, u16::MAX]);
